@@ -8,10 +8,17 @@ import (
 	vs "verif/vsched"
 )
 
-type tempErr struct{}
+// tempErr is a temporary accept error. Every other one the listener hands out is also a timeout
+// (EAGAIN / ETIMEDOUT from accept(2) are both Temporary and Timeout; EMFILE is Temporary only).
+type tempErr struct{ timeout bool }
 
-func (tempErr) Error() string   { return "temporary accept error" }
-func (tempErr) Timeout() bool   { return false }
+func (e tempErr) Error() string {
+	if e.timeout {
+		return "accept: resource temporarily unavailable (injected; also a timeout)"
+	}
+	return "accept: too many open files (injected)"
+}
+func (e tempErr) Timeout() bool { return e.timeout }
 func (tempErr) Temporary() bool { return true }
 
 // AcceptItem is one scripted result of Accept.
@@ -27,6 +34,7 @@ type Listener struct {
 	queue  []AcceptItem
 	Closed bool
 	NAccepted int
+	NTemp     int // temporary accept errors handed out
 }
 
 func NewListener() *Listener { return &Listener{} }
@@ -45,7 +53,8 @@ func (l *Listener) Accept() (net.Conn, error) {
 	it := l.queue[0]
 	l.queue = l.queue[1:]
 	if it.Temp {
-		return nil, tempErr{}
+		l.NTemp++
+		return nil, tempErr{timeout: l.NTemp%2 == 1}
 	}
 	l.NAccepted++
 	if it.NetConn != nil {
